@@ -403,6 +403,12 @@ pub fn syscall_sites() -> Vec<(&'static str, usize, &'static str)> {
     ]
 }
 
+/// System calls that may legitimately return EINTR and whose interruption the program must not
+/// even notice: (call, highest occurrence to try).
+pub fn eintr_sites() -> Vec<(&'static str, usize)> {
+    vec![("write", 90), ("openat", 70), ("fdatasync", 26)]
+}
+
 /// States from which the system-call sweep starts (each exercises a different recovery path).
 pub fn syscall_states(ctx: &Ctx) -> Vec<(String, StateSpec)> {
     use IndexSpec::*;
